@@ -16,7 +16,7 @@ func init() {
 var c06Devs = []string{"NULLABLE_DEF_UNENFORCED", "LEN_BYTES", "ZERO_LIMIT_IGNORED", "ENUM_SIBLING_CONSTRAINTS_IGNORED", "FORMAT_STRING_CONSTRAINTS_IGNORED", "PATTERN_CR_DROPPED"}
 
 func c06(ctx *Ctx) {
-	runBehaviour(ctx, behaviour{Name: "str", Cases: c06Cases(ctx.Level), K: 1, Devs: c06Devs})
+	runBehaviour(ctx, behaviour{Name: "str", Cases: c06Cases(ctx.Level), K: 1, Devs: c06Devs, Respell: true})
 	ctx.Run.Assume("inline strings as array items / map values are judged under C07, not here", "patterns are evaluated by Go regexp in both the model and the generated code (the regexp engine is trusted)",
 		"null at a required non-nullable position is outside the statement")
 }
